@@ -24,3 +24,8 @@ fi
 
 test -x target/release/fjv
 echo "fjv built: $(pwd)/target/release/fjv"
+# the same sources once more with debug assertions and overflow checks on (used by the C03 check to repeat every cut);
+# built here so that the check itself only has to re-link after a source change
+if [ "${FJV_SKIP_DBG:-0}" != "1" ]; then
+    cargo build --profile dbgassert --offline >/dev/null 2>&1 && echo "fjv (debug assertions) built: $(pwd)/target/dbgassert/fjv" || echo "fjv (debug assertions) did not build"
+fi
